@@ -361,6 +361,12 @@ def counters(ctx, rule, need_clear=True, check_len_inc=True):
         if p is not None and p[2] and p[2][-1] == cfield:
             evs.append((bi, t, m))
     clears = [bi for bi, t, m in evs if m in ("clear",)]
+    # zeroing in place (`fill(0)`, through the slice view) is as good as clearing before the resize with zeros
+    for bi, t in b.calls():
+        if U.callee_is(t, "<impl [T]>::fill") and len(t["args"]) > 1 and S.const_value(S.strip_refs(sy.operand(t["args"][1]))) == 0:
+            p_ = U.field_path(S.strip_refs(sy.operand(t["args"][0])))
+            if p_ is not None and p_[2] and p_[2][-1] == cfield:
+                clears.append(bi)
     resizes = [(bi, t) for bi, t, m in evs if m == "resize"]
     unchecked = [bi for bi, t, m in evs if m.startswith("get_unchecked")]
     # also find unchecked accesses through deref_mut of the field
@@ -565,7 +571,12 @@ def grams_from_whole_words(ctx, rule):
                 if recv[0] == "call" and recv[1].endswith("Index::index"):
                     base = U.field_path(recv[2][0])
                     rng = S.strip_refs(recv[2][1])
-                    if base and base[2] == ["chars"] and rng[0] == "agg" and rng[2].endswith("Range::Range"):
+                    if base and base[0] == "arg" and not base[2] and p.kind != "closure":
+                        # the character array is a parameter: every caller must pass a text's `chars`
+                        srcs = [U.field_path(e_) for _, e_ in U.param_sources(ctx, p, base[1])]
+                        if srcs and all(s_ and s_[2][-1:] == ["chars"] for s_ in srcs):
+                            base = (base[0], base[1], ["chars"])
+                    if base and base[2][-1:] == ["chars"] and rng[0] == "agg" and rng[2].endswith("Range::Range"):
                         def word_field(x, names):
                             x = S.strip_refs(x)
                             got = []
